@@ -22,6 +22,7 @@ import random
 from harness import core
 
 _KINDS = ("script", "ap")
+_WORKERS = max(4, min(16, __import__("os").cpu_count() or 12))
 
 
 def _observe_all(L, R, ap) -> dict:
@@ -495,7 +496,7 @@ def run_cases(ck: core.Check, cases: list[dict]) -> list[dict]:
     if len(cases) < 200:
         return [eval_case(c) for c in cases]
     try:
-        with mp.get_context("fork").Pool(12) as pool:
+        with mp.get_context("fork").Pool(_WORKERS) as pool:
             return pool.map(eval_case, cases, chunksize=max(1, len(cases) // 240))
     except Exception as e:  # noqa: BLE001 - a dying worker: fall back to in-process evaluation
         ck.notes.append(f"worker pool failed ({type(e).__name__}: {e}); evaluated in-process")
@@ -506,7 +507,7 @@ def run_history_cases(ck: core.Check, cases: list[dict]) -> list[dict]:
     if len(cases) < 100:
         return [eval_history(c) for c in cases]
     try:
-        with mp.get_context("fork").Pool(12) as pool:
+        with mp.get_context("fork").Pool(_WORKERS) as pool:
             return pool.map(eval_history, cases, chunksize=max(1, len(cases) // 120))
     except Exception as e:  # noqa: BLE001
         ck.notes.append(f"worker pool failed ({type(e).__name__}: {e}); histories evaluated in-process")
